@@ -109,10 +109,19 @@ class C19(Prop):
                     lam = np.array(lam, copy=True)
                     lam.setflags(write=False)
                 before = array_state(s), (array_state(lam) if isinstance(lam, np.ndarray) else None)
+                kw = dict(t["kwds"])
+                step = r.choice(["recorded", "recorded", "rho", "callback"])
+                if step == "rho":
+                    kw["rho"] = r.choice([0.5, 2.0])
+                elif step == "callback":
+                    from .C18 import residual_balancing
+                    kw["rho_update"] = residual_balancing
+                    kw["max_iterations"] = 150
                 try:
-                    res = admm.admm_optimize_theta(s, lam, t["args"][2], t["args"][3], **t["kwds"])
+                    res = admm.admm_optimize_theta(s, lam, t["args"][2], t["args"][3], **kw)
                     rec.probe("direct_optimiser_calls")
-                    if not np.array_equal(np.asarray(res.theta), t["theta"], equal_nan=True):
+                    rec.probe("direct_optimiser_step_" + step)
+                    if step == "recorded" and not np.array_equal(np.asarray(res.theta), t["theta"], equal_nan=True):
                         f.append(("C19:readonly_changes_result", "optimiser entry point gives a different result for a "
                                                                  "read-only copy of the same covariance"))
                 except Exception as e:  # noqa: BLE001
